@@ -1089,7 +1089,8 @@ def shard_search(task):
             return
         for kid, cnt in m.excluded.items():
             ev.excluded_known[kid] += cnt
-        ev.rejected += m.rejected_ops
+        if m.rejected_ops:
+            ev.notes["dogpile_set_ops_dropped"] = ev.notes.get("dogpile_set_ops_dropped", 0) + m.rejected_ops
         if f is not None and f.key == KEY_COLLISION:
             ev.excluded_known[KNOWN_IDS[KEY_COLLISION]] += 1
             ev.case(key=None, labels=("uri:colliding-excluded", "backend:" + case["backend"]))
@@ -1132,7 +1133,7 @@ def run(ctx):
         # the search leaves early invalidate_* ops out only while the tree under test still has that finding
         early_ok = run_probe(KEY_EARLY_INV) is None
         ctx.ev.notes["early_invalidate_ops_executed_in_search"] = early_ok
-        n = ctx.pick(90, 1400)
+        n = ctx.pick(90, 1200)
         mixes = [BACKENDS, ["rec", "rec_ctx"], ["beaker_memory", "beaker_file"], BACKENDS, ["dogpile", "rec_ctx", "beaker_file"]]
         nsh = ctx.pick(16, 64)
         ctx.pmap(shard_search, [(ctx.shard_seed(i, "search"), n, mixes[i % len(mixes)], early_ok) for i in range(nsh)])
